@@ -419,7 +419,10 @@ def mon_deadline(tr):
                     and not any(x.startswith(("unsupported", "dead after")) for x in lines):
                 out.append(("deadline:expiry-ignored", "connection %d saw two read deadline expiries in a row (the second without progress) and the read routine still waits on it: `%s`" % (double, l)))
                 double = None
-            if l.startswith("ev stall dial"):
+            if l.startswith("ev stall ") and p[3:4] == ["idle"]:
+                out.append(("deadline:armed-while-idle", "during `%s` the client waits between two packets with a read deadline still set (connection %s): "
+                            "the idle connection would be given up although nothing is in transfer" % (op[:40], p[2])))
+            elif l.startswith("ev stall dial"):
                 out.append(("deadline:unarmed-wait:dial", "during `%s` the Dialer is invoked with a context that never expires although PauseTimeout is "
                             "configured: a dial that gets no answer blocks ReadSlices for good" % op[:40]))
             elif l.startswith("ev stall ") and p[-1] == "unarmed":
